@@ -419,6 +419,7 @@ func c06Scenarios(thorough bool) []c06Scn {
 		{Name: "outbound dial + app-close as soon as visible", Conns: []c06ConnSpec{{Peer: "P", Outbound: true, Closer: "app"}}, Notifiees: 1},
 		{Name: "inbound vs Swarm.Close", Conns: []c06ConnSpec{in("P", "", true)}, SwarmClose: true, Notifiees: 1},
 		{Name: "direct + limited to one peer, both close", Conns: []c06ConnSpec{in("P", "app-after", false), {Peer: "P", Limited: true, Closer: "remote"}}, Notifiees: 1},
+		{Name: "direct + limited to one peer, the direct one closes, the limited one stays", Conns: []c06ConnSpec{in("P", "app-after", false), {Peer: "P", Limited: true}}, Notifiees: 1},
 		{Name: "two inbound of one peer, both close", Conns: []c06ConnSpec{in("P", "app", false), in("P", "remote", false)}, Notifiees: 1},
 	}
 	if thorough {
